@@ -247,7 +247,9 @@ IMMUT_SHAPES = ['date >= "2024-01-05" and month == 9001', '"2024-03-10" < date <
                 'sum((r.amount for r in orders), 9001) > 0 and len(orders) == 2']
 
 
-def immutability(i):
+def immutability(i, kind='date'):
+    """kind: what the caller's transaction looks like - a date, a datetime (time of day kept), no date, a date given as text,
+    or a richer dict (tags list, location, nested field values); every item must be the very same object afterwards."""
     src = IMMUT_SHAPES[i]
 
     def ob(desc: str, amount: int, s1: str, n1: int) -> bool:
@@ -263,6 +265,16 @@ def immutability(i):
         field = {'k': 'kv'}
         rows = {'orders': [{'amount': 5, 'item': 'x', 'when': date(2024, 2, 3)}, {'amount': 9, 'item': 'y', 'when': '2024-02-03'}]}
         txn = {'description': desc, 'amount': amount, 'field': field, 'source': 'S', 'date': date(2024, 2, 3)}
+        if kind == 'datetime':
+            from datetime import datetime
+            txn['date'] = datetime(2024, 2, 3, 17, 45, 12)
+        elif kind == 'nodate':
+            txn['date'] = None
+        elif kind == 'textdate':
+            txn['date'] = '2024-02-03'
+        elif kind == 'rich':
+            txn.update({'tags': ['Keep', 'order'], 'location': 'WA', 'raw_description': desc, 'extra_fields': {'a': [1, 2]}, 'merchant': 'M'})
+        tags0 = list(txn['tags']) if 'tags' in txn else None
         txn_items = list(txn.items())
         row_items = [list(r.items()) for r in rows['orders']]
         for _ in range(2):
@@ -282,6 +294,7 @@ def immutability(i):
                 else:
                     ok = ok and v2 is v
         ok = ok and len(txn) == len(txn_items) and all(txn[k] is v for k, v in txn_items) and field == {'k': 'kv'}
+        ok = ok and (tags0 is None or (txn['tags'] == tags0 and txn['extra_fields'] == {'a': [1, 2]}))
         ok = ok and len(rows['orders']) == 2 and all(len(r) == len(it) and all(r[k] is v for k, v in it) for r, it in zip(rows['orders'], row_items))
         return post(ok)
     return ob
@@ -376,6 +389,10 @@ def obligations(tier, seed):
     for i in range(len(IMMUT_SHAPES)):
         obs.append(Obligation(id=f'immut-{i}', factory='immutability', params={'i': i}, timeout=to, group='evaluation leaves tree, transaction and rows unchanged',
                               bounds=f'{IMMUT_SHAPES[i]!r} evaluated twice; identity snapshot of every AST node field, transaction item and row item'))
+    for i in (0, 2, 4, 8):
+        for kind in ('datetime', 'nodate', 'rich'):
+            obs.append(Obligation(id=f'immut-{i}-{kind}', factory='immutability', params={'i': i, 'kind': kind}, timeout=to, group='evaluation leaves tree, transaction and rows unchanged',
+                                  bounds=f'{IMMUT_SHAPES[i]!r} evaluated twice on a transaction whose date is {kind} (rich: with tags, location, extra fields); identity snapshot as above'))
     obs.append(Obligation(id='finite-sweep', factory='sweep', engine='smt', twin=False, timeout=300, group='finite resolvable-name sweep (exhaustion)',
                           bounds='every name in dir(builtins) as variable and function; every attribute of str/int/float/bool/None/list/dict/set/date/function/type/generator as attribute and method on 11 receivers'))
     return obs
